@@ -349,7 +349,7 @@ func Spec() *explore.Spec {
 			{Name: "union-containers", ShardDepth: 2, Body: unionContainers, Doc: "two unions (3 x 3 member selections) as map values, list elements and map values behind pointers x 3 protocols: each comes back selecting its member with its value"},
 			{Name: "embedded", ShardDepth: 2, Body: embedded, Doc: "struct types whose fields are promoted through 1..5 levels of embedded structs, through embedded pointers, and through two embedded siblings: every field alone and all together (13 patterns) x 3 protocols; round trip, the encoding decoded into a flat struct declaring the same ids, and the flat struct's encoding decoded into the embedding type"},
 			{Name: "long-strings", ShardDepth: 2, Body: longStrings, Doc: "strings, binaries and list elements of 18 lengths (0 .. 1 MiB, around 16 KiB, 64 KiB, 128 KiB, 256 KiB) between other fields x 3 protocols x {Unmarshal, Decoder over a plain reader, Decoder over one-byte reads}: the value and the fields after it survive"},
-			{Name: "marshal-histories", ShardDepth: 2, Body: marshalHistories, Doc: "every sequence of 2-3 Marshal calls over 3 protocols x 5 values: each returned payload keeps its bytes and decodes to its value after every later call"},
+			{Name: "marshal-histories", ShardDepth: 2, Body: marshalHistories, Doc: "every sequence of 2-3 Marshal calls over 3 protocols x 5 values and 2 values that cannot be encoded (the call fails after part of the value has been written): each returned payload keeps its bytes and decodes to its value after every later call"},
 			{Name: "collection-lengths", ShardDepth: 2, Body: collectionLens, Doc: "lists of 7 element kinds, a map and a set with 0..17, 127..129, 1023..1025, 1500, 2047..2049, 3000, 5000 elements (compact short-form boundary at 15, the decoder's chunked growth beyond 1024) x 3 protocols"},
 			{Name: "roundtrip", ShardDepth: 2, Body: roundtrip, Bound: func(tier string) int {
 				if tier == "thorough" {
